@@ -102,5 +102,34 @@ pub fn run(ctx: &Ctx, st: &mut Stats) {
             st.sample(|| json!(c));
         }
     }
+    // existence-boundary seeking: bisect the latitude down to adjacent f64 values across the transition where a
+    // twilight time appears/disappears; both neighbours must still return a complete, ordered schedule
+    let nb = ctx.quota(3_000, 120_000);
+    let mut rb = Rng::new(ctx.seed, 502, ctx.shard);
+    for _ in 0..nb {
+        let mut c = gen_case(&mut rb);
+        let pr = *rb.pick(&[Prayer::Fajr, Prayer::Isha, Prayer::Imsaak]);
+        let p = c.p.build();
+        let date = s2d(&c.date);
+        let site = c.site;
+        let exists = |st: &mut Stats, la: f64| -> bool {
+            let mut s2 = site;
+            s2.lat = X(la);
+            call(st, &p, s2.loc(), date, None).map(|r| r[&pr].is_ok()).unwrap_or(false)
+        };
+        let la0 = rb.range(-40.0, 40.0);
+        let la1 = if rb.chance(0.5) { 60.0 } else { -60.0 };
+        if !exists(st, la0) || exists(st, la1) {
+            st.count("boundary_seeks.no_transition_between_endpoints");
+            continue;
+        }
+        let (a, b) = super::bisect(la0, la1, |la| exists(st, la));
+        for la in [a, b] {
+            c.site.lat = X(la);
+            check(ctx, st, &c);
+        }
+        st.count(&format!("boundary_seeks.{pr:?}"));
+        st.nontrivial_key(hash64(&format!("b{:?}", c)));
+    }
     st.extra.insert("rule".into(), json!("seeded random (site, date, method|custom angles, rounding mode) with |lat|<=60; every returned map is judged (7 keys, flags, ordering of the entries that exist); distinct by hash of the input"));
 }
